@@ -17,6 +17,12 @@ func init() { props["C12"] = checkC12 }
 
 func checkC12(c *Ctx) {
 	c.Decides("SIBLING: each of parsimonyUPPASS (inner-node branch), parsimonyDOWNPASS, parsimonyDELTRAN, parsimonyACCTRAN, computeParsimony and randomlyResolveNodeStates is reduced, in package acr and in package asr, to a normalised skeleton (loops over children / states, count-vs-threshold decisions normalised to 'count >= k', which state vector of which node is read or written, accumulation operators, calls) with the per-site loop of asr projected away; the two skeletons must be equal ('sequence reconstruction agrees site by site with single-character reconstruction')")
+	c.Decides("STATE-ALIAS: in packages acr and asr no entry of a per-node state table is assigned from an entry of a table of the same type (no two entries share storage: a pass that writes one table cannot alter another, tips included)")
+	if sites, _ := c.stateAlias("STATE-ALIAS", c.AllFuncs("acr", "asr"), "Tip states are never altered"); sites == 0 {
+		c.Undecided("STATE-ALIAS", "scan", token.NoPos, "no store into a per-node state table seen in acr / asr")
+	} else {
+		c.OK("STATE-ALIAS", "scan", token.NoPos, fmt.Sprintf("%d stores into per-node state tables, none copies an entry of another table", sites))
+	}
 	c.Decides("GF: kept states are exactly those whose count equals a running maximum taken from 0 with a strict test; a step is counted exactly for each child whose count of the kept (arg-max) state is 0; FRESH: every temporary count vector is allocated inside the innermost child/site loop that accumulates into it (no leak between sites or children); PATH: the second passes store into a node's own state vector only under 'not a tip'")
 	c.DoesNotDecide("optimality (steps = true minimum), membership of reported states in most-parsimonious reconstructions, independence of the rooting: numerical facts about a dynamic programme; ACCTRAN's stores into child vectors are not shown to leave tips unchanged")
 	c.Decides("LASTLINE (shared with C05/C06/C15): the line readers behind the --states file of acr do not read lines with bufio ReadString/ReadBytes unless they handle io.EOF and strip the carriage return (a state read as \"A\\r\" is another state than \"A\")")
